@@ -204,8 +204,8 @@ pub fn gen_rules_n(rng: &mut Rng, below: usize, maxlen: usize) -> Vec<Rule> {
 }
 
 pub fn gen_rules(rng: &mut Rng, n: usize, maxlen: usize) -> Vec<Rule> {
-    let pats = ["*", "a", "b", "(a|b)", "名詞", "(名詞|動詞)", "一般", "*"];
-    let outs = ["$1", "$2", "$3", "$4", "X", "a", "*", "$9"];
+    let pats = ["*", "a", "b", "(a|b)", "名詞", "(名詞|動詞)", "一般", "*", "(a)", "(名詞)", "(b|a|c)"];
+    let outs = ["$1", "$2", "$3", "$4", "X", "a", "*", "$9", "$10", "$12", "$20", "$101"];
     (0..n)
         .map(|_| {
             let pl = 1 + rng.below(maxlen);
@@ -221,13 +221,14 @@ pub fn gen_templates(rng: &mut Rng) -> (Vec<String>, Vec<(String, String)>) {
     let nu = 1 + rng.below(4);
     let mut u = vec![];
     for i in 0..nu {
-        u.push(match rng.below(7) {
+        u.push(match rng.below(8) {
             0 => format!("U{i}:%F[0]"),
             1 => format!("U{i}:%F[0],%F[1]"),
             2 => format!("U{i}:%F[0],%F?[2]"),
             3 => format!("U{i}:%t"),
             4 => format!("U{i}:%F[1],%t,%F?[3]"),
             5 => format!("U{i}:%F?[1],%F?[2]"),
+            6 => format!("(%F[0])U{i}"),
             _ => format!("U{i}:%F[{}]", rng.below(6)),
         });
     }
@@ -235,7 +236,7 @@ pub fn gen_templates(rng: &mut Rng) -> (Vec<String>, Vec<(String, String)>) {
     let mut b = vec![];
     for i in 0..nb {
         let mk = |rng: &mut Rng, s: char| -> String {
-            match rng.below(8) {
+            match rng.below(11) {
                 0 => format!("B{i}:%{s}[0]"),
                 1 => format!("B{i}:%{s}[0],%{s}[1]"),
                 2 => format!("B{i}:%{s}?[2]"),
@@ -243,6 +244,9 @@ pub fn gen_templates(rng: &mut Rng) -> (Vec<String>, Vec<(String, String)>) {
                 4 => format!("B{i}:%{s}[{}]", rng.below(6)),
                 5 => format!("B{i}:%{s}?[1],%{s}?[2]"),
                 6 => format!("B{i}:%{s}?[0],%{s}[1],%{s}?[3]"),
+                7 => format!("[%{s}[0]|%{s}[1]]B{i}"),
+                8 => format!("B{i}:%{s}[0]-tail"),
+                9 => format!("CONST{i}"),
                 _ => format!("B{i}:%{s}[1]"),
             }
         };
@@ -265,6 +269,9 @@ pub fn gen_trainset(rng: &mut Rng) -> TrainSet {
             let mut s: String = (0..len).map(|_| chars[rng.below(chars.len().min(9))]).collect();
             if rng.chance(0.05) {
                 s.push(',');
+            }
+            if rng.chance(0.06) {
+                s.push('"');
             }
             s
         };
@@ -310,7 +317,10 @@ pub fn gen_trainset(rng: &mut Rng) -> TrainSet {
     if rng.chance(0.6) {
         for i in 0..1 + rng.below(4) {
             let len = 1 + rng.below(3);
-            let s: String = (0..len).map(|_| chars[rng.below(chars.len())]).collect();
+            let mut s: String = (0..len).map(|_| chars[rng.below(chars.len())]).collect();
+            if rng.chance(0.1) {
+                s.push(*rng.pick(&['"', ',', '\'']));
+            }
             let f = if rng.chance(0.5) { seed[rng.below(seed.len())].1.clone() } else { gen_cells(rng, 100 + i) };
             if rng.chance(0.5) {
                 user.push((s, 0, 0, 0, f));
@@ -344,7 +354,7 @@ pub fn no_bigram_feature(ts: &TrainSet) -> bool {
     true
 }
 
-pub const KNOWN_NO_BIGRAM: &str = "C14:write_dictionary:panic:rucrf-merge-on-empty-bigram-table:no-left-word-feature";
+pub const KNOWN_NO_BIGRAM: &str = "C14:write_dictionary:panic:rucrf-merge-on-empty-bigram-table";
 
 /// Trains in a helper thread with a generous wall-clock limit: rucrf's optimiser (argmin L-BFGS with
 /// a More-Thuente line search) was observed not to terminate on a few generated configurations
@@ -515,7 +525,7 @@ pub fn c14_case(ctx: &mut Ctx, rng: &mut Rng) {
         Err(e) => {
             // the hook merges the model like the writers do; let the real writer speak
             match generate(&mut model) {
-                Err(e2) if !bundled && no_bigram_feature(&ts) && e2.contains("rucrf") && e2.contains("the len is 0") => ctx.violation("generation_failed", KNOWN_NO_BIGRAM, format!("{e2}; no word of the training set yields any left-word (%L) bigram feature, so rucrf's bigram table is empty"), desc.clone()),
+                Err(e2) if vibrato::verif::model_bigram_rows(&model) == 0 && e2.contains("rucrf") && e2.contains("the len is 0") => ctx.violation("generation_failed", KNOWN_NO_BIGRAM, format!("{e2}; the trained model's bigram weight table has no row at all (not even the BOS row), and a label with a right-word feature was added afterwards"), desc.clone()),
                 Err(e2) => ctx.violation("generation_failed", "C14:generation_failed", e2, desc.clone()),
                 Ok(_) => ctx.note(format!("model_view failed but generation succeeded: {e}")),
             }
@@ -525,8 +535,8 @@ pub fn c14_case(ctx: &mut Ctx, rng: &mut Rng) {
     let files = match generate(&mut model) {
         Ok(f) => f,
         Err(e) => {
-            if !bundled && no_bigram_feature(&ts) && e.contains("rucrf") && e.contains("the len is 0") {
-                ctx.violation("generation_failed", KNOWN_NO_BIGRAM, format!("{e}; no word of the training set yields any left-word (%L) bigram feature, so rucrf's bigram table is empty"), desc.clone());
+            if vibrato::verif::model_bigram_rows(&model) == 0 && e.contains("rucrf") && e.contains("the len is 0") {
+                ctx.violation("generation_failed", KNOWN_NO_BIGRAM, format!("{e}; the trained model's bigram weight table has no row at all (not even the BOS row), and a label with a right-word feature was added afterwards"), desc.clone());
             } else {
                 ctx.violation("generation_failed", "C14:generation_failed", e, desc.clone());
             }
@@ -757,8 +767,8 @@ pub fn c15_case(ctx: &mut Ctx, rng: &mut Rng) {
             return;
         }
     };
-    if !bundled && no_bigram_feature(&ts) {
-        ctx.bucket("model_without_any_bigram_feature_skipped");
+    if vibrato::verif::model_bigram_rows(&m) == 0 {
+        ctx.bucket("model_with_empty_bigram_table_skipped");
         return;
     }
     ctx.bucket("training_succeeded");
@@ -894,8 +904,8 @@ pub fn c16_case(ctx: &mut Ctx, rng: &mut Rng) {
             return;
         }
     };
-    if !bundled && no_bigram_feature(&ts) {
-        ctx.bucket("model_without_any_bigram_feature_skipped");
+    if vibrato::verif::model_bigram_rows(&m) == 0 {
+        ctx.bucket("model_with_empty_bigram_table_skipped");
         return;
     }
     ctx.bucket("training_succeeded");
@@ -928,6 +938,14 @@ pub fn c16_case(ctx: &mut Ctx, rng: &mut Rng) {
             }
             BuildOutcome::Panic(p) => {
                 ctx.violation("bigram_files_compile_panicked", &format!("C16:{name}:compile_panicked"), p, cj(String::new()));
+                return;
+            }
+        };
+        // a compiled dictionary is used after write/read (portable or AVX2 encode/decode of the feature rows)
+        let b = match write_dict(&b).ok().and_then(|(bytes, _)| read_dict(&bytes).ok()).and_then(|r| r.ok()) {
+            Some(b2) => b2,
+            None => {
+                ctx.violation("bigram_dictionary_does_not_round_trip", &format!("C16:{name}:round_trip"), "write/read of the compiled bigram dictionary failed".into(), cj(String::new()));
                 return;
             }
         };
@@ -1043,7 +1061,7 @@ pub fn c14_witness_no_bigram_feature(ctx: &mut Ctx) {
     if let Ok(mut m) = train(&ts) {
         let _ = guarded(|| m.read_user_lexicon(ts.user_csv().as_bytes()).map_err(|e| e.to_string()));
         match generate(&mut m) {
-            Err(e) if e.contains("rucrf") && e.contains("the len is 0") && no_bigram_feature(&ts) => ctx.violation("generation_failed", KNOWN_NO_BIGRAM, format!("{e}; no word of the training set yields any left-word (%L) bigram feature, so rucrf's bigram table is empty"), ts.texts()),
+            Err(e) if e.contains("rucrf") && e.contains("the len is 0") && vibrato::verif::model_bigram_rows(&m) == 0 => ctx.violation("generation_failed", KNOWN_NO_BIGRAM, format!("{e}; the trained model's bigram weight table has no row at all (not even the BOS row), and a label with a right-word feature was added afterwards"), ts.texts()),
             Err(e) => ctx.violation("generation_failed", "C14:generation_failed", e, ts.texts()),
             Ok(_) => ctx.bucket("witness_no_bigram_feature_ok"),
         }
@@ -1154,7 +1172,7 @@ pub fn c17_case(ctx: &mut Ctx, rng: &mut Rng) {
             }
         }
     }
-    if ctx.thorough() && ctx.index == 1 {
+    if ctx.thorough() && ctx.index == 1 && ctx.flavour == "rel" {
         c17_medium_scope(ctx, &lists);
         return;
     }
@@ -1162,7 +1180,7 @@ pub fn c17_case(ctx: &mut Ctx, rng: &mut Rng) {
         // small scope, exhaustive: all lists of <= 3 rules with patterns of length <= 2 over
         // {*, a, b, (a|b)}; every rule has its own output so that the rule applied is observable.
         // The scope is partitioned over (shard, index/2): slice t of T.
-        let pa = ["*", "a", "b", "(a|b)"];
+        let pa = ["*", "a", "b", "(a|b)", "(a)"];
         let mut pats: Vec<Vec<String>> = vec![];
         for x in pa {
             pats.push(vec![s(x)]);
@@ -1170,7 +1188,7 @@ pub fn c17_case(ctx: &mut Ctx, rng: &mut Rng) {
                 pats.push(vec![s(x), s(y)]);
             }
         }
-        let np = pats.len(); // 20
+        let np = pats.len(); // 30
         let total = np + np * np + np * np * np;
         let slices = (ctx.nshards * ctx_slices(ctx)) as usize;
         let t = (ctx.shard * ctx_slices(ctx) + (ctx.index / 2) % ctx_slices(ctx)) as usize;
@@ -1227,7 +1245,7 @@ pub fn c17_case(ctx: &mut Ctx, rng: &mut Rng) {
                 .collect();
             let text = rules_text(&sections);
             let vals = ["a", "b", "名詞", "動詞", "一般", "*", "c", "x"];
-            let rlists: Vec<Vec<String>> = (0..40).map(|_| (0..rng.below(7)).map(|_| rng.pick(&vals).to_string()).collect()).collect();
+            let rlists: Vec<Vec<String>> = (0..40).map(|_| (0..if rng.chance(0.3) { 9 + rng.below(14) } else { rng.below(7) }).map(|k| if rng.chance(0.2) { format!("v{k}") } else { rng.pick(&vals).to_string() }).collect()).collect();
             if !c17_check(ctx, &text, sec, &rules, &rlists) {
                 return;
             }
@@ -1472,8 +1490,8 @@ fn c18_dictionary(ctx: &mut Ctx, rng: &mut Rng) {
             return;
         }
     };
-    if no_bigram_feature(&ts) {
-        ctx.bucket("model_without_any_bigram_feature_skipped");
+    if vibrato::verif::model_bigram_rows(&m) == 0 {
+        ctx.bucket("model_with_empty_bigram_table_skipped");
         return;
     }
     ctx.bucket("training_succeeded");
